@@ -76,6 +76,11 @@ ASSUMPTIONS = [
     "a database that cannot be opened is not an ending the statement lists: only 'no success claimed, no contradictory record' is demanded",
     "the lock is checked in-process (second open file description) when entry_point() returns; when an exception leaves entry_point() "
     "the process ends and the kernel drops the lock",
+    "'log closed' is judged in-process when asyncio.run() ends (file object closed, writer thread joined, handler detached) and only "
+    "then on the file (PenlogReader decodes it; records == every record >= DEBUG emitted on the 'gallia' logger while the handler was "
+    "attached, in order). A handler still open at that moment is not counted as closed: the only thing left to close it is "
+    "logging.shutdown() at interpreter exit, which deadlocks with the writer thread when a record is still queued (seen in 2 of 20 fresh runs)",
+    "a non-daemon thread (aiosqlite worker of a connection left open) that survives asyncio.run() means the interpreter cannot exit",
     "the in-memory transport / fake ECU, the tracing DBHandler subclass (delegates to the real one) and the hook scripts are harness",
     "UDSScanner cases run with ping=False and tester_present_interval=60 (avoids 0.5 s real sleeps; thorough adds ping=True cases)",
 ]
@@ -836,7 +841,7 @@ def _workdir() -> Path:
 _SEQ = itertools.count()
 
 
-def run_case(case: dict[str, Any], res: Result, keep: bool = False) -> tuple[dict[str, Any], dict[str, Any], Path, list[tuple[str, str]]]:
+def run_case(case: dict[str, Any], res: Result) -> tuple[dict[str, Any], dict[str, Any], Path, list[tuple[str, str]]]:
     d = _workdir() / f"case-{next(_SEQ)}"
     if d.exists():
         shutil.rmtree(d)
@@ -981,8 +986,13 @@ def run_fresh(item: tuple[Any, ...], res: Result) -> None:
     status = 128 - rc if isinstance(rc, int) and rc < 0 else rc
     res.count("evaluations")
     res.count("fresh_interpreter_conformance_runs")
-    predicted: Any = "hang" if obs["threads"] else obs["proc_code"]
-    if status != predicted:
+    predicted: set[Any] = {"hang"} if obs["threads"] else {obs["proc_code"]}
+    if any(not z["closed"] for z in obs["zst"]):
+        # a log handler that is still open at interpreter exit is closed by logging.shutdown(), which holds the
+        # handler lock while _ZstdFileHandler.close() joins the writer thread: if that thread still has a record to
+        # deliver the two deadlock (observed in about 1 of 10 runs) - both outcomes are possible, neither is a verdict
+        predicted.add("hang")
+    if status not in predicted:
         raise Broken(
             f"process-status model is wrong for {case_label(case)}: fresh interpreter ended with {rc!r} "
             f"(=> {status}), derived {predicted} from {obs['fate']} / threads {obs['threads']}"
